@@ -117,7 +117,7 @@ func init() {
 			"every condition carries a tracer probe (custom function tr) so the render yields an evaluation log; output and log are compared with an independent interpreter. distinct_nontrivial = distinct sources whose construct has at least one condition",
 		Assumptions: []string{
 			"nil- and object-valued conditions cannot carry a tracer and are judged by output only",
-			"text right after @else starts with a space or bracket (a letter run 'if' would spell @elseif)",
+			"text right after @else never starts with 'if' (that spells @elseif)",
 		},
 		Setup: func(c *core.Ctx) {
 			if err := registerTracers(); err != nil {
@@ -219,6 +219,74 @@ func init() {
 						prog = wrapStmts(prog, 2, 1)
 					}
 					judgeProgram(c, prog, data, "empty-body", true)
+				}})
+			// (2c) an @else body glued to the keyword: any text that does not spell "if"
+			elseTexts := []string{"it works", "info", "i", "x", "(see)", "If", "end", "I", "eif", "ifx"[1:], "\n", "é"}
+			secs = append(secs, core.Section{Name: "else-body-text", Exhaustive: true, N: len(elseTexts) * 4,
+				Run: func(c *core.Ctx, i int) {
+					t := elseTexts[i/4]
+					data := map[string]model.Value{}
+					first, second := i%2 == 1, (i/2)%2 == 1
+					n := model.If{Conds: []model.Expr{condExpr(defaultCond(first), 0, false, data), condExpr(defaultCond(second), 1, true, data)},
+						Bodies: [][]model.Stmt{{model.Text{S: "[B0]"}}, {model.Text{S: "[B1]"}}}, Else: []model.Stmt{model.Text{S: t}, model.Text{S: "[E]"}}}
+					judgeProgram(c, []model.Stmt{model.Text{S: "pre|"}, n, model.Text{S: "|post"}}, data, "else-text", true)
+				}})
+			// (2d) the construct inside a slot body, an insert block, a component file and a layout
+			secs = append(secs, core.Section{Name: "in-template-trees", Exhaustive: true, N: len(ifShapes) * 16 * 4 * 2,
+				Run: func(c *core.Ctx, i int) {
+					failAt := -1
+					if i%2 == 1 {
+						failAt = (i / 2) % 4
+					}
+					i /= 2
+					place := i % 4
+					i /= 4
+					vec := i % 16
+					sh := ifShapes[i/16]
+					vec &= 1<<sh.conds - 1
+					data := map[string]model.Value{}
+					var conds []model.Expr
+					for p := 0; p < sh.conds; p++ {
+						if p == failAt {
+							conds = append(conds, model.Binary{Op: "/", L: model.Lit{V: model.Int(1)}, R: model.Var{Name: "zero"}})
+						} else {
+							conds = append(conds, condExpr(defaultCond(vec&(1<<p) != 0), p, p%2 == 0, data))
+						}
+					}
+					data["zero"] = model.Int(0)
+					construct := []model.Stmt{model.Text{S: "a|"}, buildIf(conds, sh.hasElse, ""), model.Text{S: "|b"}}
+					t := newTree("c02tree", ".tw")
+					switch place {
+					case 0: // slot body
+						t.files["components/box"] = []model.Stmt{model.Text{S: "<box>"}, model.SlotRef{Name: ""}, model.Text{S: "</box>"}}
+						t.files["page"] = []model.Stmt{model.Text{S: "p:"}, model.Component{Name: "~box", Slots: []model.SlotBody{{Name: "", Body: construct}}}, model.Text{S: ":q"}}
+					case 1: // insert block
+						t.files["layouts/main"] = []model.Stmt{model.Text{S: "<html>"}, model.Reserve{Name: "body"}, model.Text{S: "</html>"}}
+						t.files["page"] = []model.Stmt{model.Use{Name: "~main"}, model.Insert{Name: "body", Block: construct}}
+					case 2: // component file
+						t.files["components/box"] = append(append([]model.Stmt{model.Text{S: "<box>"}}, construct...), model.Text{S: "</box>"})
+						t.files["page"] = []model.Stmt{model.Text{S: "p:"}, model.Component{Name: "~box"}, model.Text{S: ":q"}}
+					case 3: // layout
+						t.files["layouts/main"] = append(append([]model.Stmt{model.Text{S: "<html>"}}, construct...), model.Reserve{Name: "body"}, model.Text{S: "</html>"})
+						t.files["page"] = []model.Stmt{model.Use{Name: "~main"}, model.Insert{Name: "body", E: model.Lit{V: model.Str("B")}}}
+					}
+					files := t.sources(model.Style{Layout: model.SpaceLayout})
+					tpl, err := loadTree(c, "c02tree", files, ".tw")
+					c.Nontrivial(fmt.Sprint(files, data))
+					if err != nil {
+						c.Violation("in-tree:load-failed", err.Error(), map[string]any{"files": describeFiles(files)})
+						return
+					}
+					if tpl == nil {
+						return
+					}
+					exp := t.expectPage("page", data)
+					traceReset()
+					got, _ := renderPage(c, tpl, "page", model.NativeData(data))
+					ev := traceTake()
+					if why := compare(exp, got, true, ev); why != "" {
+						c.Violation(fmt.Sprintf("in-tree:%d", place), why, map[string]any{"files": describeFiles(files), "data": model.DescribeData(data), "expected": expectText(exp)})
+					}
 				}})
 			// (3) an erroring expression at every position: it must surface up to the chosen branch and never after it
 			errExprs := []model.Expr{
